@@ -1,5 +1,6 @@
 import Genq.Props.C03
 open Genq.Doc
+open Genq
 #print axioms C03_only_typename_added
 #print axioms C03_preprocess_idempotent
 #print axioms C03_spreads_unchanged
@@ -8,3 +9,4 @@ open Genq.Doc
 #print axioms C03_closure_sound
 #print axioms C03_closure_direct
 #print axioms C03_closure_complete
+#print axioms C03_document_tie
